@@ -114,6 +114,17 @@ func wodCheck(e *Context, addLine IntType, pool IntType, points IntType, thresho
 
 // RollWoD 返回: 成功数，总骰数，轮数，细节
 func RollWoD(src *rand.PCGSource, addLine IntType, pool IntType, points IntType, threshold IntType, isGE bool, mode int) (IntType, IntType, IntType, string) {
+	a, b, c, text, _ := rollWoD(src, addLine, pool, points, threshold, isGE, mode, nil)
+	return a, b, c, text
+}
+
+// rollWoD is RollWoD with an optional budget: before every round charge is asked
+// whether that many more dice may be rolled; the last result is false when it refused.
+func rollWoD(src *rand.PCGSource, addLine IntType, pool IntType, points IntType, threshold IntType, isGE bool, mode int, charge func(n IntType) bool) (IntType, IntType, IntType, string, bool) {
+	if mode == 1 {
+		// 最大值模式下每一轮的出目完全相同，加骰永远不会结束，因此不加骰
+		addLine = 0
+	}
 	var details []string
 	addTimes := 1
 
@@ -122,6 +133,9 @@ func RollWoD(src *rand.PCGSource, addLine IntType, pool IntType, points IntType,
 	successCount := IntType(0)
 
 	for times := 0; times < addTimes; times++ {
+		if charge != nil && !charge(pool) {
+			return successCount, allRollCount, IntType(addTimes), "", false
+		}
 		addCount := IntType(0)
 		var detailsOne []string
 
@@ -190,7 +204,7 @@ func RollWoD(src *rand.PCGSource, addLine IntType, pool IntType, points IntType,
 	detailText = fmt.Sprintf("成功%d/%d%s%s", successCount, allRollCount, roundsText, detailText)
 
 	// 成功数，总骰数，轮数，细节
-	return successCount, allRollCount, IntType(addTimes), detailText
+	return successCount, allRollCount, IntType(addTimes), detailText, true
 }
 
 func doubleCrossCheck(ctx *Context, addLine, pool, points IntType) bool {
@@ -213,6 +227,12 @@ func doubleCrossCheck(ctx *Context, addLine, pool, points IntType) bool {
 }
 
 func RollDoubleCross(src *rand.PCGSource, addLine IntType, pool IntType, points IntType, mode int) (IntType, IntType, IntType, string) {
+	a, b, c, text, _ := rollDoubleCross(src, addLine, pool, points, mode, nil)
+	return a, b, c, text
+}
+
+// rollDoubleCross is RollDoubleCross with an optional budget, see rollWoD.
+func rollDoubleCross(src *rand.PCGSource, addLine IntType, pool IntType, points IntType, mode int, charge func(n IntType) bool) (IntType, IntType, IntType, string, bool) {
 	var details []string
 	addTimes := 1
 
@@ -221,6 +241,9 @@ func RollDoubleCross(src *rand.PCGSource, addLine IntType, pool IntType, points 
 	resultDice := IntType(0)
 
 	for times := 0; times < addTimes; times++ {
+		if charge != nil && !charge(pool) {
+			return resultDice, allRollCount, IntType(addTimes), "", false
+		}
 		addCount := IntType(0)
 		detailsOne := []string{}
 		maxDice := IntType(0)
@@ -247,6 +270,10 @@ func RollDoubleCross(src *rand.PCGSource, addLine IntType, pool IntType, points 
 		}
 
 		resultDice += maxDice
+		if mode == 1 {
+			// 最大值模式下加骰永远不会结束，因此只骰一轮
+			addCount = 0
+		}
 		allRollCount += addCount
 
 		// 有加骰，再骰一次
@@ -285,7 +312,7 @@ func RollDoubleCross(src *rand.PCGSource, addLine IntType, pool IntType, points 
 	}
 
 	// 成功数，总骰数，轮数，细节
-	return resultDice, allRollCount, IntType(addTimes), lastDetail
+	return resultDice, allRollCount, IntType(addTimes), lastDetail, true
 }
 
 // RollCommon (times)d(dicePoints)kl(lowNum) 或 (times)d(dicePoints)kh(highNum)
